@@ -2,6 +2,7 @@ package main
 
 import (
 	"fmt"
+	"os"
 )
 
 type VC []int
@@ -136,6 +137,9 @@ func (r *Run) yield(block func() bool) {
 	me.blocked = block
 	if block != nil {
 		me.where = r.curFn
+	}
+	if r.Opts != nil && r.Opts.Trace {
+		fmt.Fprintf(os.Stderr, "  [%s] sched point in %s (blocking=%v)\n", me.name, r.curFn, block != nil)
 	}
 	for {
 		en := r.enabled()
